@@ -1,9 +1,17 @@
 # ./check configuration for C03 (merged by mc/props.py)
 PROP = dict(
-        pkg=".", test="TestVerifC03", files=["mc/c03/*.go"], libs=["explore", "canon"],
+        libs=["explore", "canon"],
+        targets=[
+            dict(name="e1", pkg=".", test="TestVerifC03", files=["mc/c03/*.go"]),
+            dict(name="e3", pkg=".", test="TestVerifC03E3", files=["mc/c04/*.go", "mc/c04/e3/*.go", "mc/c03/e3/*.go"], parts=["e3-receive-lockpoints"],
+                 libs=["explore", "canon", "sched", "vsync"],
+                 rewrite={f: [('"sync"', 'sync "github.com/refraction-networking/uquic/internal/verifmc/vsync"')]
+                          for f in ("receive_stream.go", "internal/flowcontrol/base_flow_controller.go")}),
+        ],
+        crash_is_violation=True,
         level="model_checking", shards=1,
         level_text="Explicit-state model checking of the real frameSorter, ReceiveStream (+real flow controllers) and crypto streams against a byte-array reference model: the frameSorter and crypto-stream state spaces are explored to closure, the ReceiveStream to a depth bound; every transition is executed on the real code, so there is no model/code gap. Right level because the property quantifies over all segmentations/orders of a byte string, which is a finite space on a small lattice chosen around the 128-byte copy threshold.",
-        level_note="Trusted: the reference byte-array model in mc/c03, the reflective canonicaliser (nothing that is data is dropped), cell-aligned lattice (K<=8 cells of 1/50/128 bytes); blocking behaviour of Read is only exercised in states where the model says it cannot block.",
+        level_note="Trusted: the reference byte-array model in mc/c03, the reflective canonicaliser (nothing that is data is dropped), cell-aligned lattice (K<=8 cells of 1/50/128 bytes); blocking behaviour of Read is only exercised in the BFS parts in states where the model says it cannot block; blocked Read / Peek callers racing with the frames that end the stream are explored by target e3 (lock-point exploration, the thread mixes of mc/c04/e3 with every Lock and Unlock of receive_stream.go and the flow controllers as a scheduler point).",
         technique="explicit-state BFS over the real implementation with reference-model oracle",
         deadline=dict(quick=90, thorough=1000),
         rule="explicit-state BFS over the real frameSorter / ReceiveStream / crypto streams; successor = fresh instance + replay of the shortest path + one op",
